@@ -142,7 +142,9 @@ Section KThm.
     forallb (one_lane_op 8) ops = true -> forallb quiet_op ops = true ->
     agree_all (map (fun b => (mat_at ex col b ops, m2_cols (S b))) all_bits) = true ->
     flags_const ex col ops = true ->
-    exists (k : Z) (c' : colour) (dnr dns : nat), (dnr <= 1)%nat /\ (dns <= 1)%nat /\
+    let ref := run 1 KrausCheck.b00 ops (start_state ex col 0) in
+    let c' := hd CXc (colour_ ref) in let dnr := nrec ref in let dns := nsil ref in
+    exists (k : Z),
       forall b (t : kst) q, kex R t q = ex -> kcol R t q = col ->
         let t' := krun b (map (at_lane q) ops) t in
         (exists e, In e clifford_phases /\
@@ -150,13 +152,13 @@ Section KThm.
         kex R t' = fupd (kex R t) q true /\ kcol R t' = fupd (kcol R t) q c' /\
         knrec R t' = (knrec R t + dnr)%nat /\ knsil R t' = (knsil R t + dns)%nat /\ knerr R t' = knerr R t /\ kncorr R t' = kncorr R t.
   Proof.
-    intros Hone Hq Hag Hfl.
+    intros Hone Hq Hag Hfl ref0 c' dnr dns. subst c' dnr dns ref0.
     destruct (agree_all_sound R rO rI radd rmul rsub ropp Rth E E_add E_0 E_1 half half_2 ta tb tc _ Hag) as (k & Hk).
     unfold flags_const in Hfl. set (ref := run 1 b00 ops (start_state ex col 0)) in *.
     rewrite !andb_true_iff in Hfl. destruct Hfl as [[[[[Hall Hex1] Hnr1] Hns1] Hne0] Hnc0].
     apply Nat.leb_le in Hnr1, Hns1. apply Nat.eqb_eq in Hne0, Hnc0.
     destruct (exists_ ref) as [|[|] [|]] eqn:Eref; try discriminate Hex1. clear Hex1.
-    exists k, (hd CXc (colour_ ref)), (nrec ref), (nsil ref). split; [exact Hnr1|]. split; [exact Hns1|].
+    exists k.
     intros b t q Hex Hcol t'.
     set (w := window b (knrec R t) (knsil R t)).
     pose proof (window_in b (knrec R t) (knsil R t)) as Hw. fold w in Hw.
